@@ -297,6 +297,14 @@ def run(chk):
     if rc != 0 or mn is None:
         chk.tie("case file evaluates", False, out[-3000:])
         return
+    for i in mn[:6]:
+        nm = names[int(i)]
+        segs_ = nm.split("/")
+        if obs[int(i)] == "true" and (any(x in (".", "..") for x in segs_) or "" in segs_[:-1] or segs_[0] == ".sgwtmp"):
+            # the Spec itself (C04_dot_segments_refused, C04_reserved_namespace_refused) condemns the name: a concrete failing input
+            chk.fail("c04:name-validation-accepts-unsafe-name", "backend.IsObjectNameValid accepts the key %s (%d elements), which has a %s element" % (
+                repr(nm) if len(nm) < 80 else repr(nm[:30]) + " ... " + repr(nm[-30:]), len(segs_), "'.' / '..'" if any(x in (".", "..") for x in segs_) else "reserved" if segs_[0] == ".sgwtmp" else "empty"),
+                {"name_hex": nm.encode("latin1").hex()[:4000], "elements": len(segs_), "observed": obs[int(i)]})
     chk.tie("T2 the object-name validation of the gateway = Model.Paths.valid_object_name on %d names" % len(terms), not mn,
             [{"name": names[int(i)], "observed": obs[int(i)]} for i in mn[:5]])
 
@@ -304,6 +312,11 @@ def run(chk):
 def gen_names(rnd, n):
     segs = ["a", "b", "..", ".", "", "...", ".a", "a.", "..a", "a..", " ", "%2e%2e", "\\", "..\\", "c d", ".sgwtmp", ".sgwtmp", ".sgwtmpx", "sgwtmp"]
     out = ["", "/", "a", "a/b", "a/", "a//b", "../x", "a/../b", "a/./b", "./a", "a/..", "a/.", "..", ".", "/a", "a/b/", "a/b//", "...", "a/.../b", "a\\..\\b"]
+    # names of many elements with a dot segment (or the empty one) far behind the first: every element is examined, however many
+    for depth in (30, 255, 256, 300, 510, 511, 512, 513, 1023, 1024, 1025, 2000):
+        for bad in ("..", ".", ""):
+            out.append("a/" * depth + bad + "/x"); out.append("a/" * depth + "b/" + bad)
+        out.append("a/" * depth + "x")
     while len(out) < n:
         k = "/".join(rnd.choice(segs) for _ in range(rnd.randrange(1, 6)))
         if rnd.random() < 0.2: k += "/"
